@@ -59,7 +59,7 @@ def run(P, R, tier):
             ops = [a for a in node.args if not (isinstance(a, ast.Constant) and isinstance(a.value, str))][:2]
     else:
         ops = [node.left, node.right]
-    p = pol.Pol(P, f)
+    p = pol.Pol(P, f, inline_repo=True)
     ta = list(dict.fromkeys(p.terms(ops[0], rstmt)))
     tb = list(dict.fromkeys(p.terms(ops[1], rstmt)))
     # which operand is the model-offset factor?
@@ -99,6 +99,15 @@ def run(P, R, tier):
                     cc = cone(du, x.args[0], du.stmt_of(x), interproc=False) if x.args else None
                     okw = cc is not None and any(a.endswith(".t") for a in cc.attrs) and not any(a.endswith((".sum_px", ".n", ".means", ".variances")) for a in cc.attrs)
                     R.check(okw, "LINEAR.ops", KEY, src(x)[:60], "the only selection is the zero-frame guard on T", "np.where selects on something other than the frame count: the score is not linear in its inputs", x.lineno)
+                elif fn not in LINEAR_CALLS and any(t_[0] == "repo" for t_ in P.resolve_callee(x.func, f)):
+                    # a helper of the package: every call inside it must itself be a linear array operation
+                    for t_ in P.resolve_callee(x.func, f):
+                        if t_[0] != "repo":
+                            continue
+                        for y in walk_no_nested(t_[1].node):
+                            if isinstance(y, ast.Call):
+                                fy = y.func.attr if isinstance(y.func, ast.Attribute) else (y.func.id if isinstance(y.func, ast.Name) else None)
+                                R.check(fy in LINEAR_CALLS, "LINEAR.ops", KEY, f"{t_[1].qualname}: {src(y)[:50]}", "linear array operation", f"`{fy}` inside the helper {t_[1].qualname} is applied to a value the score is computed from and is not a linear array operation", y.lineno)
                 elif fn not in LINEAR_CALLS:
                     R.violation("LINEAR.ops", KEY, src(x)[:60], f"`{fn}` is applied to a value the score is computed from; the score must be a bilinear form of the model offset and the centred statistics (only reshaping, sums and products are linear)", x.lineno)
         R.ok("LINEAR.ops", KEY, f"{n_calls} calls in the score's cone are linear array operations", "")
@@ -183,30 +192,58 @@ def run(P, R, tier):
         for a in ("sum_px", "n", "means", "variances"):
             R.check(allc.has_attr(a), "DEP.score", KEY, f"score depends on .{a}", "", f"the score does not depend on the {a} of its inputs")
     # ---- input normalisation ------------------------------------------------------------------------
+    def norm_scopes(var):
+        """(function, name of the value in it): the scoring function itself and helpers that normalise `var` and hand it back"""
+        out = [(f, var)]
+        for st2, t, v, k in stores(f):
+            if isinstance(t, ast.Name) and t.id == var and isinstance(v, ast.Call):
+                for t_ in P.resolve_callee(v.func, f):
+                    if t_[0] == "repo":
+                        b_ = P.bind_args(t_[1], v.args, v.keywords)
+                        pn = next((p_ for p_, a_ in b_.items() if isinstance(a_, ast.Name) and a_.id == var), None)
+                        if pn:
+                            out.append((t_[1], pn))
+        return out
+
     wrapped = False
-    for n in du.cfg.nodes():
-        if isinstance(n, ast.If) and "isinstance" in src(n.test) and stats in src(n.test) and "GMMStats" in src(n.test):
-            for st2, t, v, k in stores(n):
-                if isinstance(t, ast.Name) and t.id == stats and isinstance(v, ast.List) and len(v.elts) == 1 and src(v.elts[0]) == stats:
-                    wrapped = True
+    for g_, stats_ in norm_scopes(stats):
+        for n in walk_no_nested(g_.node):
+            if isinstance(n, ast.If) and "isinstance" in src(n.test) and stats_ in src(n.test) and "GMMStats" in src(n.test):
+                for st2, t, v, k in stores(n):
+                    if isinstance(t, ast.Name) and t.id == stats_ and isinstance(v, ast.List) and len(v.elts) == 1 and src(v.elts[0]) == stats_:
+                        wrapped = True
+                for r_ in walk_no_nested(n):
+                    if isinstance(r_, ast.Return) and isinstance(r_.value, ast.List) and len(r_.value.elts) == 1 and src(r_.value.elts[0]) == stats_:
+                        wrapped = True
     R.check(wrapped, "NORM.stats", KEY, f"{stats} = [{stats}] for a bare GMMStats", "", "a single statistics object is no longer wrapped in a list (one column per test item)")
     means_of = False
-    for n in du.cfg.nodes():
-        if isinstance(n, ast.If) and "isinstance" in src(n.test) and "GMMMachine" in src(n.test):
-            for st2, t, v, k in stores(n):
-                if isinstance(t, ast.Name) and t.id == models:
-                    c = cone(du, v, du.stmt_of(st2), interproc=False)
-                    means_of = any(a.endswith(".means") for a in c.attrs)
+    for g_, models_ in norm_scopes(models):
+        gdu_ = get_defuse(g_, P)
+        for n in walk_no_nested(g_.node):
+            if isinstance(n, ast.If) and "isinstance" in src(n.test) and "GMMMachine" in src(n.test):
+                for st2, t, v, k in stores(n):
+                    if isinstance(t, ast.Name) and t.id == models_:
+                        c = cone(gdu_, v, gdu_.stmt_of(st2), interproc=False)
+                        means_of = means_of or any(a.endswith(".means") for a in c.attrs)
+                for r_ in walk_no_nested(n):
+                    if isinstance(r_, ast.Return) and r_.value is not None:
+                        c = cone(gdu_, r_.value, r_, interproc=False)
+                        means_of = means_of or any(a.endswith(".means") for a in c.attrs)
     R.check(means_of, "NORM.models", KEY, f"{models} <- [m.means for m in {models}]", "", "machines given as models are not reduced to their means")
     # a single (n_gaussians, n_features) model is expanded to one row of models
     exp2d = False
-    for n_ in walk_no_nested(f.node):
-        if isinstance(n_, ast.If) and "ndim" in src(n_.test) and "2" in src(n_.test):
-            for st2, t2, v2, k2 in stores(n_):
-                if isinstance(t2, ast.Name) and t2.id == models and v2 is not None and (("None" in src(v2) or "newaxis" in src(v2) or "expand_dims" in src(v2) or "ndmin" in src(v2) or "reshape" in src(v2) or "atleast_3d" in src(v2))):
-                    exp2d = True
-    if not exp2d:
-        exp2d = any(isinstance(n_, ast.Call) and src(n_.func).split(".")[-1] in ("atleast_3d",) or (isinstance(n_, ast.Call) and any(kw.arg == "ndmin" and const_value(kw.value) == 3 for kw in n_.keywords)) for n_ in walk_no_nested(f.node))
+    EXPAND = ("None", "newaxis", "expand_dims", "ndmin", "reshape", "atleast_3d")
+    for g_, models_ in norm_scopes(models):
+        for n_ in walk_no_nested(g_.node):
+            if isinstance(n_, ast.If) and "ndim" in src(n_.test) and "2" in src(n_.test):
+                for st2, t2, v2, k2 in stores(n_):
+                    if isinstance(t2, ast.Name) and t2.id == models_ and v2 is not None and any(x in src(v2) for x in EXPAND):
+                        exp2d = True
+                for r_ in walk_no_nested(n_):
+                    if isinstance(r_, ast.Return) and r_.value is not None and any(x in src(r_.value) for x in EXPAND):
+                        exp2d = True
+        if not exp2d:
+            exp2d = any(isinstance(n_, ast.Call) and src(n_.func).split(".")[-1] in ("atleast_3d",) or (isinstance(n_, ast.Call) and any(kw.arg == "ndmin" and const_value(kw.value) == 3 for kw in n_.keywords)) for n_ in walk_no_nested(g_.node))
     R.check(exp2d, "NORM.models-2d", KEY, f"{models}: (C, D) -> (1, C, D)", "a single model gives one row of scores", "a single model given as a (n_gaussians, n_features) array is no longer expanded to one row: its Gaussians are scored as separate models")
     from ..engines import dtype as _dt
     _dt.check_function(P, R, KEY, raw_attrs=("n", "sum_px", "sum_pxx"))
